@@ -1208,7 +1208,9 @@ func genWorld(t *rapid.T, c *Case) *world {
 	// Seeded services never share an entity ID with different metadata: which of two such
 	// registrations a freshly started server uses depends on map iteration order in the
 	// code under test, and a schedule must replay deterministically.
-	perEntity := []int{rapid.IntRange(0, 1).Draw(t, "variant-e0"), 2 + rapid.IntRange(0, 1).Draw(t, "variant-e1")}
+	// (variants 4 and 5 are the ones with everything real SPs publish: several descriptors,
+	// attribute consuming services, ResponseLocation, further role descriptors)
+	perEntity := []int{pick(t, "variant-e0", []int{0, 1, 4, 4}), pick(t, "variant-e1", []int{2, 3, 5, 5})}
 	ns := rapid.IntRange(1, 3).Draw(t, "nservices")
 	for i := 0; i < ns; i++ {
 		s := Step{Op: "put_service", Name: idpsrv.ServiceNames[i], MD: perEntity[rapid.IntRange(0, 1).Draw(t, "entity")], Pw: -1}
@@ -1450,6 +1452,16 @@ func genMixBody(t *rapid.T, c *Case, maxReqs int) {
 	c.Seed = rapid.Uint64().Draw(t, "seed")
 	w := genWorld(t, c)
 	n := rapid.IntRange(2, maxReqs).Draw(t, "nreqs")
+	if rapid.IntRange(0, 4).Draw(t, "same-sp-burst") == 0 {
+		// several users holding sessions ask for the SAME service at once
+		name := pick(t, "burst-service", sortedKeys(w.services))
+		v := idpsrv.Variants[w.services[name]]
+		for i := 0; i < n; i++ {
+			c.Reqs = append(c.Reqs, Step{Op: "sso", Method: pick(t, "method", []string{"GET", "POST"}), Pw: -1, Issuer: v.Entity, ACS: pick(t, "acs", append([]int{-1}, v.ACS...)),
+				Cookie: Cookie{Kind: "session", Idx: rapid.IntRange(0, w.nsess-1).Draw(t, "sess")}})
+		}
+		return
+	}
 	for i := 0; i < n; i++ {
 		c.Reqs = append(c.Reqs, w.genReq(t))
 	}
@@ -1581,6 +1593,30 @@ func enumFailingStoreOps(_ string, emit func(Case)) {
 	}
 }
 
+// enumSameServiceBursts: users holding sessions ask for the same registered service at the same
+// time, for every metadata variant (free-running under the race detector in the race job).
+func enumSameServiceBursts(_ string, emit func(Case)) {
+	for v, mv := range idpsrv.Variants {
+		if v > 5 {
+			break
+		}
+		for _, n := range []int{2, 4} {
+			for _, method := range []string{"GET", "POST"} {
+				c := Case{Kind: "mix", Seed: 30 + uint64(v), Init: []Step{{Op: "seed_user", Name: "alice", Pw: 0, Profile: 0}, {Op: "seed_user", Name: "bob", Pw: 1, Profile: 3}, {Op: "put_service", Name: "svc-a", Pw: -1, MD: v}},
+					Setup: []Step{{Op: "seed_session", Name: "alice", Pw: -1, Delta: 60}, {Op: "seed_session", Name: "bob", Pw: -1, Delta: 600}}}
+				for i := 0; i < n; i++ {
+					c.Reqs = append(c.Reqs, Step{Op: "sso", Method: method, Pw: -1, Issuer: mv.Entity, ACS: mv.ACS[i%len(mv.ACS)], Cookie: Cookie{Kind: "session", Idx: i % 2}})
+				}
+				if n == 4 {
+					c.Reqs[3] = Step{Op: "launch", Name: "sc-x", Method: "GET", Pw: -1, Cookie: Cookie{Kind: "session", Idx: 1}}
+					c.Init = append(c.Init, Step{Op: "put_shortcut", Name: "sc-x", Pw: -1, Issuer: mv.Entity})
+				}
+				emit(c)
+			}
+		}
+	}
+}
+
 // ---------------------------------------------------------------- properties and tests
 
 var propSched = &pbt.Prop[Case]{
@@ -1606,7 +1642,7 @@ var propRace = &pbt.Prop[Case]{
 	ID:          "C20",
 	Rule:        propSched.Rule,
 	Gen:         genRace,
-	Enums:       []pbt.Enum[Case]{{Name: "store-programs-with-failing-operations", Each: enumFailingStoreOps}},
+	Enums:       []pbt.Enum[Case]{{Name: "store-programs-with-failing-operations", Each: enumFailingStoreOps}, {Name: "same-service-bursts-all-metadata-variants", Each: enumSameServiceBursts}},
 	Check:       checkNoting,
 	Reset:       fix.Reset,
 	Assumptions: propSched.Assumptions,
